@@ -430,6 +430,21 @@ static void do_scale(int full)
         cJSON_AddItemToArray(t, cJSON_CreateStringReference(big)); cJSON_AddItemToArray(t, cJSON_CreateNumber(2));
         vd_tick(); scale_one(t, "2100 strings of 600 bytes followed by one of 716800 bytes"); cJSON_Delete(t); free(small); free(big);
     }
+    {   /* breadth: more siblings than CJSON_NESTING_LIMIT of every kind in a shallow tree (depth is the only bound of the round trip, C04) */
+        static const int K[] = { 1000, 1001, 2600 }; size_t ki; int kind, asobj, wrap;
+        for (ki = 0; ki < (full ? 3u : 2u); ki++) for (kind = 0; kind < 7; kind++) for (asobj = 0; asobj < 2; asobj++) for (wrap = 0; wrap < 2; wrap++) {
+            cJSON *top = asobj ? cJSON_CreateObject() : cJSON_CreateArray(), *t = top; int i; char key[24];
+            if (!full && ((kind + asobj + wrap) & 1) && ki == 1) { cJSON_Delete(top); continue; }
+            for (i = 0; i < K[ki]; i++) {
+                cJSON *c = kind == 0 ? cJSON_CreateArray() : kind == 1 ? cJSON_CreateObject() : kind == 2 ? cJSON_CreateIntArray(&i, 1) : kind == 3 ? cJSON_CreateObject() : kind == 4 ? cJSON_CreateString("s") : kind == 5 ? cJSON_CreateNumber(i) : cJSON_CreateNull();
+                if (kind == 3) cJSON_AddNumberToObject(c, "a", 1);
+                if (asobj) { snprintf(key, sizeof(key), "k%d", i); cJSON_AddItemToObject(top, key, c); } else cJSON_AddItemToArray(top, c);
+            }
+            if (wrap) { t = cJSON_CreateArray(); cJSON_AddItemToArray(t, top); }
+            snprintf(what, sizeof(what), "%s with %d %s side by side%s", asobj ? "an object" : "an array", K[ki], kind == 0 ? "empty arrays" : kind == 1 ? "empty objects" : kind == 2 ? "one-element arrays" : kind == 3 ? "one-member objects" : kind == 4 ? "strings" : kind == 5 ? "numbers" : "nulls", wrap ? " inside an array" : "");
+            vd_tick(); scale_one(t, what); cJSON_Delete(t);
+        }
+    }
     {   /* one value whose text alone exceeds INT_MAX bytes: refused; the caller's buffer stays the caller's */
         size_t n = 360000000; char *huge = (char*)mmap(NULL, n + 1, PROT_READ | PROT_WRITE, MAP_PRIVATE | MAP_ANONYMOUS, -1, 0);
         if (huge != MAP_FAILED) {
